@@ -295,6 +295,23 @@ func buildFrame(ts uint64, tags, values, msg []byte) []byte {
 	return append(f, body...)
 }
 
+// buildFrameS is buildFrame with a non-empty strings section.
+func buildFrameS(ts uint64, strs, tags, values, msg []byte) []byte {
+	var body []byte
+	body = append(body, uvar(ts)...)
+	body = append(body, uvar(uint64(len(strs)))...)
+	body = append(body, rawBlock(strs)...)
+	body = append(body, uvar(uint64(len(msg)))...)
+	body = append(body, rawBlock(msg)...)
+	body = append(body, uvar(uint64(len(tags)))...)
+	body = append(body, rawBlock(tags)...)
+	body = append(body, uvar(uint64(len(values)))...)
+	body = append(body, rawBlock(values)...)
+	f := []byte{3}
+	f = append(f, uvar(uint64(len(body)))...)
+	return append(f, body...)
+}
+
 var g1Tags = []byte{'"', 'l', 'u', 'd', 'e', 'n', 't', 'f', '{', '}', '[', ']', 'r', 'N', 0, 'x'}
 
 func g1Options(tag byte, ts uint64, off int) [][]uint64 {
@@ -392,6 +409,61 @@ func c19Body(w *W) {
 	rec(0)
 	w.Sample(fmt.Sprintf("G1 sample frame: %x", buildFrame(2, []byte{'[', ']'}, []byte{2, 0, 0, 0, 0, 0, 0, 0}, nil)))
 
+	// ---- G1s: frames that carry a strings section (Serialize never writes one, Deserialize
+	// reads it): string entries that point into it with lengths around 0 and around 2^64
+	w.Note("G1s: frames with a strings section of 0..3 bytes and a message of 0 or 3 bytes; one string entry (as array element, as object key + value; framing otherwise exactly as Serialize writes it) whose offset word is STRINGBUFBIT|0..4 or 0..4 and whose length word is 0..4, 2^64-1..2^64-5, 2^63, 2^63-1")
+	{
+		const sbit = simdjson.STRINGBUFBIT
+		var lens []uint64
+		for k := uint64(0); k <= 4; k++ {
+			lens = append(lens, k)
+		}
+		for k := uint64(1); k <= 5; k++ {
+			lens = append(lens, -k)
+		}
+		lens = append(lens, 1<<63, 1<<63-1)
+		shapes := []struct {
+			tags  []byte
+			ts    uint64
+			pre   []uint64 // value words before the string's two words
+			post  []uint64
+			twice bool
+		}{
+			{[]byte{'r', '[', '"', ']', 'r'}, 6, []uint64{6, 4}, []uint64{^uint64(4)}, false},
+			{[]byte{'r', '{', '"', '"', '}', 'r'}, 8, []uint64{8, 6}, []uint64{^uint64(6)}, true},
+		}
+		for si, sh := range shapes {
+			w.res.States++
+			if !w.Mine() {
+				continue
+			}
+			_ = si
+			for off := uint64(0); off <= 4; off++ {
+				for _, hi := range []uint64{sbit, 0} {
+					for _, l := range lens {
+						for ssz := 0; ssz <= 3; ssz++ {
+							for _, msg := range [][]byte{nil, []byte("abc")} {
+								words := append([]uint64(nil), sh.pre...)
+								words = append(words, hi|off, l)
+								if sh.twice {
+									words = append(words, hi|off, l)
+								}
+								words = append(words, sh.post...)
+								var vals []byte
+								for _, v := range words {
+									var t [8]byte
+									binary.LittleEndian.PutUint64(t[:], v)
+									vals = append(vals, t[:]...)
+								}
+								w.res.Transitions++
+								c.try("C19-G1s-strings-section", buildFrameS(sh.ts, []byte("xyz")[:ssz], sh.tags, vals, msg))
+							}
+						}
+					}
+				}
+			}
+		}
+	}
 	if onlyG1 {
 		return
 	}
